@@ -189,7 +189,7 @@ def spec_shape(v):
 
 # ---------------------------------------------------------------------------------------------------- value domain
 STR_CPS = [[], [97], [34], [92], [10], [1], [60], [38], [127], [233], [8232], [128512], [65533], [-1], [47], [9, 62], [97, -1, 98], [31, 32]]
-KEYS = [[97], [98], [], [34, 233], [65]]
+KEYS = [[97], [98], [], [34, 233], [65], [57], [49, 48], [49, 97]]          # a b "" "\"é" A 9 10 1a
 
 
 def val_str(cps):
